@@ -8,7 +8,7 @@ HOOKS = dict(
 )
 ENGINES = [
     dict(name="graph-smt", path="driver/ + symg/",
-         serves_properties=["C01", "C02", "C16", "C17"],
+         serves_properties=["C01", "C02", "C06", "C16", "C17"],
          kind_free_text="Rust driver linked against /repo's current tree runs the real instantiate/inline/compile/optimize functions and dumps the term DAGs they build; "
                         "a Python interpreter turns each DAG 1:1 into z3 bit-vector terms (inputs, randomness, junk symbolic) and z3/cvc5 decide the property; models are replayed on the real evaluator"),
 ]
@@ -32,6 +32,12 @@ chk("C02", "graph-smt", "translation_validation",
     G_NOTE + " Execution model as stated in the property's observe_at (not stored in the repository).",
     "SMT (z3) three-view symbolic execution of the compiled graph with junk and per-party tapes universally quantified", "DESIGN.md §5 C02")
 
+chk("C06", "graph-smt", "translation_validation",
+    "Bounded translation validation of optimize_context: for each generated inlined graph (grammar biased to what the four passes rewrite: constants, tuple/vector/zip/a2v getters, A2B/B2A chains, duplicates, "
+    "dangling nodes, unused inputs, Send-annotated NOPs, Random/PRF) the solver shows for ALL inputs and random draws that the output and every node the returned mapping still maps compute the same value, and (three-view) "
+    "that every party's output is unchanged, which is what keeping Send markers on same-valued nodes means; input interface, mapped-node types and recorded-vs-reinferred types (serde round trip) are compared on the dumps.",
+    G_NOTE, "SMT (z3 QF_BV) per-mapped-node equivalence of graph vs real optimiser output, inputs and randomness symbolic", "DESIGN.md §5 C06")
+
 chk("C16", "graph-smt", "other",
     "Bounded symbolic equivalence: for each comparison/min/max operation, signedness, bit width (1..17,31..33,63,64,128 quick; 1..64,96,127,128 thorough), broadcasting pattern and inline mode, the graph built by the real instantiate code is "
     "symbolically executed and the solver shows it equals bvult/bvslt/.../ite on the encoded integers for ALL operand values (unsat), i.e. exhaustive in the operands at every listed width. Not a proof over all widths.",
@@ -44,7 +50,7 @@ chk("C17", "graph-smt", "other",
     G_NOTE, "SMT (z3 QF_BV) equivalence of the real generated circuit vs bit-vector spec, all operands symbolic", "DESIGN.md §5 C17")
 
 _pending = "check not built yet in this session; see DESIGN.md for the plan"
-for p in ["C03","C04","C05","C06","C07","C08","C09","C10","C13","C14","C15","C18"]:
+for p in ["C03","C04","C05","C07","C08","C09","C10","C13","C14","C15","C18"]:
     NOT_APPLICABLE[p] = _pending
 NOT_APPLICABLE["C11"] = "API histories over Arc/AtomicRefCell/HashMap state with format!-built errors: not encodable (Kani: 580 s/15 GB on a 3-call concrete history); a hand model would not be the real code"
 NOT_APPLICABLE["C12"] = "serde_json/typetag parsing of several-hundred-byte strings followed by the graph-building API: out of reach of bit-precise symbolic execution; round-trip equality has no input to quantify besides the program"
